@@ -25,8 +25,16 @@ def state_str(s):
     return " ".join(f"{k}={int(s[k])}" for k in FIELDS)
 
 
-def via_apply(s):
-    """set the state through the public setters and capture the 0x40 body apply() sends"""
+PROP_SETTERS = [
+    ("horizontal_swing_angle", lambda: AC.SwingAngle.POS_3), ("vertical_swing_angle", lambda: AC.SwingAngle.POS_5),
+    ("rate_select", lambda: AC.RateSelect.GEAR_50), ("ieco", lambda: True), ("breeze_away", lambda: True),
+    ("breeze_mild", lambda: True), ("breezeless", lambda: True),
+]
+
+
+def via_apply(s, pending=()):
+    """set the state through the public setters (plus, optionally, property-protocol settings that are then pending
+    for the same apply) and capture the 0x40 body apply() sends"""
     captured = []
 
     async def fake_send(self, command):
@@ -57,6 +65,8 @@ def via_apply(s):
         dev.purifier = s["pur"]
         dev.target_humidity = s["hum"]
         dev.aux_mode = AC.AuxHeatMode(s["aux"])
+        for name in pending:
+            setattr(dev, name, dict(PROP_SETTERS)[name]())
         C.Command._message_id = 0
         try:
             asyncio.run(dev.apply())
@@ -64,13 +74,17 @@ def via_apply(s):
             return None, "py:" + type(e).__name__
     finally:
         Device._send_command = orig
-    frame = captured[0]
-    return frame, None
+    states = [f for f in captured if len(f) > 10 and f[10] == 0x40]
+    if len(states) != 1:
+        return None, f"{len(states)} control commands sent"
+    return states[0], None
 
 
-def one(ctx, stream, s):
-    frame, err = via_apply(s)
+def one(ctx, stream, s, pending=()):
+    frame, err = via_apply(s, pending)
     inp = {"state": state_str(s)}
+    if pending:
+        inp["pending_properties"] = list(pending)
     want = "ok " + state_str(s)
     if frame is None:
         ctx.violate(stream, inp, err, want, "apply() raised for an in-domain state")
@@ -84,7 +98,7 @@ def one(ctx, stream, s):
         cfg += f",temp:{s['temp'] * 50},freeze:{int(s['freeze'])},hum:{s['hum']},auxmode:{s['aux']}"
         rep = ctx.driver.ask(f"devrun counter=0 cfg={cfg} ops=apply@")
         msent = rep.rsplit(" sent=", 1)[1]
-        if msent != hx(frame):
+        if msent != hx(frame) and not pending:
             ctx.disagree(stream, inp, hx(frame), msent)
         # oracle: the vendor-layout decoder reads back the requested state
         dec = ctx.driver.ask(f"spec_decode_setstate body={hx(body)}")
@@ -99,8 +113,8 @@ def run(ctx):
     rng = ctx.rng
     seen_bodies = {}
 
-    def go(stream, s):
-        body = one(ctx, stream, s)
+    def go(stream, s, pending=()):
+        body = one(ctx, stream, s, pending)
         if body is not None:
             k = bytes(body)
             prev = seen_bodies.get(k)
@@ -140,6 +154,16 @@ def run(ctx):
                 s = rand_state(rng)
                 s.update(aux=a, eco=e, pur=p)
                 go("aux_x_b9", s)
+    # the control command must carry the requested state (beep included) also when property-protocol settings are
+    # pending for the same apply(): every single pending setting and random subsets, all flag combinations of b1
+    for name, _v in PROP_SETTERS:
+        for power, beep in itertools.product([False, True], repeat=2):
+            s = rand_state(rng)
+            s.update(power=power, beep=beep)
+            go("pending_properties", s, (name,))
+    for _ in range(40 if ctx.tier == "quick" else 600):
+        k = rng.randrange(1, 4)
+        go("pending_properties", rand_state(rng), tuple(rng.sample([n for n, _ in PROP_SETTERS], k)))
     for _ in range(1500 if ctx.tier == "quick" else 30000):
         go("random", rand_state(rng))
 
@@ -153,7 +177,7 @@ def replay(ctx, case):
     s = {k: int(v) for k, v in st.items()}
     for k in BOOLS:
         s[k] = bool(s[k])
-    frame, err = via_apply(s)
+    frame, err = via_apply(s, tuple(case["input"].get("pending_properties", ())))
     print("impl body:", hx(frame[10:-3]) if frame else err)
     if ctx.driver and frame:
         print("spec decode:", ctx.driver.ask(f"spec_decode_setstate body={hx(frame[10:-3])}"))
